@@ -34,7 +34,7 @@ def exactLP (p : Aff Q) (c : List Q) : Exact :=
     | some x =>
       let rayP : Aff Q := ⟨p.mat ++ [c], p.bias.map (fun _ => 0) ++ [-1], n⟩
       match findPoint rayP.mat rayP.bias n with
-      | some d => if Poly.memb p x && Poly.memb rayP d then .unbounded x d else .undecided "ray check failed"
+      | some d => if checkUnbounded n p c x d then .unbounded x d else .undecided "ray check failed"
       | none => .undecided "no ray found"
   | .optimal x v =>
     if !(Poly.memb p x && dotQ c x == v) then .undecided "primal point invalid" else
@@ -44,10 +44,8 @@ def exactLP (p : Aff Q) (c : List Q) : Exact :=
     let q : List Q := (List.range n).map (fun j => -(c.getD j 0)) ++ [-v]
     match feasNonneg M q m with
     | some y =>
-      let ok := y.all (· ≥ 0) &&
-        (List.range n).all (fun j => dotQ (p.mat.map (fun row => row.getD j 0)) y == -(c.getD j 0)) &&
-        dotQ p.bias y == -v
-      if ok then .optimal x v else .undecided "dual certificate invalid"
+      -- accepted only by the verified checker (`checkOptimal_sound`)
+      if checkOptimal n p c x v y then .optimal x v else .undecided "dual certificate invalid"
     | none => .undecided "no dual certificate"
 
 def tolQ : Q := mkRat 1 1000000
